@@ -191,9 +191,11 @@ fn message_vec_fn(token_groups: &[&[Token]]) -> MessagePatterns {
     b = _clean(ex, rd('builder.rs'))
     b = _sub(ex, 'R2-keypair-eq', r'(?ms)^impl PartialEq for Keypair \{.*?^}\n', '', b, expect=1)
     b = _sub(ex, 'R11-params', r'fn resolve_kem\(_: Box<dyn CryptoResolver>, _: &mut HandshakeState\)',
-             'fn resolve_kem(_a0: Box<dyn CryptoResolver>, _a1: &mut HandshakeState)', b, expect=1)
+             'fn resolve_kem(_a0: Box<dyn CryptoResolver>, _a1: &mut HandshakeState)', b)
+    # R9 / R11-params are rewrites inside one function body: when the code there has been rewritten the rule simply does
+    # not apply (if what replaced it is outside Verus' reach, that one function is isolated by the checker, not the crate)
     b = _sub(ex, 'R9', r'for \(i, psk\) in self\.psks\.iter\(\)\.enumerate\(\) \{',
-             'for i in 0..self.psks.len() { let psk = &self.psks[i];', b, expect=1)
+             'for i in 0..self.psks.len() { let psk = &self.psks[i];', b)
 
     def r10(mo):
         head, body = mo.group(1), mo.group(2)
